@@ -93,6 +93,17 @@ theorem C05_next_crash_restarts (g : GoodChain c ch top) {n : FNode} (r : Reach 
   obtain ⟨n', ws, a1, _⟩ := crash_restarts g hs e k hk
   exact ⟨n', ws, a1, .crash e k r hk a1⟩
 
+/-- **A crash during the restart itself** (between `Sync.start`'s own writes) leaves a consistent image again,
+so it is covered too: starting on it gives a reachable node (`Reach.image`). -/
+theorem C05_crash_during_restart (g : GoodChain c ch top) {d : Store} (hd : DiskOK c ch d) :
+    ∃ n ws, Sync.start c d = some (n, ws) ∧ Reach c ch n ∧
+      ∀ j, DiskOK c ch (d.applyPrefix j ws) ∧
+        ∃ n' ws', Sync.start c (d.applyPrefix j ws) = some (n', ws') ∧ Reach c ch n' := by
+  obtain ⟨n, ws, a1, a2⟩ := start_crash_ok g hd {}
+  refine ⟨n, ws, a1, .image hd a1, fun j => ⟨a2 j, ?_⟩⟩
+  obtain ⟨n', ws', b1, _⟩ := diskOK_start g (a2 j)
+  exact ⟨n', ws', b1, .image (a2 j) b1⟩
+
 /-- **Recovery: "after restart it continues syncing and reaches the proposer's chain".**  From any such node,
 for any delivery order of the remaining (or all) headers and data, with duplicates and clean restarts: the
 node applies every block up to any height `h` for which both parts of all blocks above its current height
@@ -111,7 +122,7 @@ def C05_crash_full : Prop :=
   ∀ (c : Cfg) (ch : PChain) (top : Nat) (evs : List Ev) (e : Ev) (k : Nat), GoodChain c ch top →
     DiskOK c ch ((run c ch evs).store.applyPrefix k (deliver ch (run c ch evs) e).2)
 
-theorem witness3_good : GoodChain wC wch3 3 := goodChain_of_check wC _ 3 (by decide) wFacts.2.2.2.1
+theorem witness3_good : GoodChain wC wch3 3 := goodChain_of_check wC _ 3 (by decide) wf_check3
 
 /-- **The full statement fails** (kernel-checked).  Chain of three blocks built by the producer model; header 1
 and data 2 are delivered, then header 2 arrives and the process dies after the first write of applying
@@ -120,7 +131,7 @@ the real node by stream C05 (`C05/after-crash/crash-between-state-and-blk/block-
 theorem C05_crash_fails : ¬ C05_crash_full := by
   intro h
   have hd : DiskOK wC wch3 wImage := h wC wch3 3 [.hdr 1, .dat 2] (.hdr 2) 1 witness3_good
-  obtain ⟨a, ra, rb, rc⟩ := wFacts.2.2.2.2.2.2.2
+  obtain ⟨a, ra, rb, rc⟩ := wf_crash
   obtain ⟨b, sb, _, hsb, _⟩ := hd.blocks 2 (by decide) (by rw [ra]; exact Nat.le_refl _)
   rw [rb] at hsb
   cases hsb
@@ -133,7 +144,17 @@ theorem C05_crash_witness_permanent :
     afterStateWrite (deliver wch3 wBefore (.hdr 2)).2 1 = true ∧ recHeight wC wImage = 2 ∧
     wImage.getBlock 2 = none ∧
     wAfter.map (fun n => (n.store.height, n.lastState.lastHeight, n.store.getBlock 2, n.alive)) = some (3, 3, none, true) :=
-  wFacts.2.2.2.2.2.2.2
+  wf_crash
+
+/-- the same window at the initial height (header 1 arrives at the fresh node, crash after the state write):
+the node reports height 1, and what it holds at height 1 is the **unsigned genesis block it wrote locally at
+start-up**, not the proposer's signed block — also after everything has been delivered again (finding
+`C05/after-crash/crash-between-state-and-blk/store/signature`). -/
+theorem C05_crash_witness_initial_height :
+    recHeight wC wImage1 = 1 ∧ (wImage1.getBlock 1).map (·.sh.sig) = some .none ∧
+    (wch3 1).map (·.sh.sig.isEmpty) = some false ∧
+    wAfter1.map (fun n => (n.store.height, (n.store.getBlock 1).map (·.sh.sig), n.alive)) = some (3, some .none, true) :=
+  wf_crash1
 
 /-! ## non-vacuity -/
 
